@@ -111,6 +111,16 @@ pub fn run(ctx: &Ctx) -> i32 {
                     Ok((_, Err(er))) => acc.viol("C08|encrypt-wrap|decrypt-failed", format!("{er}"), cid("decrypt"), json!({"tree": m.show()})),
                     Err(p) => acc.viol(format!("C08|encrypt-wrap|panic|{}", p.loc), p.msg.clone(), cid("encrypt"), json!({})),
                 }
+                // the WHOLE envelope turned into an encrypted element by the Encrypt obscure action, then decrypt_subject
+                acc.inc("pristine_roundtrips");
+                match catch(|| bind::obscure_whole(&e, crate::refmodel::tree::Kind::Encrypted)) {
+                    Ok(enc) if ki == 0 => match catch(|| enc.decrypt_subject(key)) {
+                        Ok(Ok(d)) => if bind::observe(&d) != ob { acc.viol(format!("C08|elide-encrypt-whole|{sc}|differs"), "decrypting a whole envelope encrypted by the Encrypt action does not give it back", cid("elide-encrypt-whole"), json!({"tree": m.show()})) },
+                        Ok(Err(er)) => acc.viol(format!("C08|elide-encrypt-whole|{sc}|decrypt-failed"), format!("{er}"), cid("elide-encrypt-whole"), json!({"tree": m.show()})),
+                        Err(p) => acc.viol(format!("C08|elide-encrypt-whole|panic|{}", p.site), p.msg.clone(), cid("elide-encrypt-whole"), json!({})),
+                    },
+                    _ => {}
+                }
                 // elide-with-Encrypt of the subject, then decrypt_subject
                 acc.inc("pristine_roundtrips");
                 let sd = bind::dset(&[bind::dg(&e.subject())]);
@@ -133,6 +143,8 @@ pub fn run(ctx: &Ctx) -> i32 {
 
     // key-holder forgeries: plaintext X under declared digest of Y
     let fam: Vec<M> = { let mut f = families::plain(3); f.extend(families::marked(4).into_iter().skip(18).take(if th { 30 } else { 10 })); f };
+    // nodes together with their own subjects: (plaintext = node, declared digest = digest of its subject) is the forgery a merged digest check misses
+    let fam: Vec<M> = { let mut f = fam; for n in families::marked(6).into_iter().filter(|m| matches!(m, M::Node(..))).take(if th { 24 } else { 8 }) { f.push(crate::refmodel::ops::subject(&n).clone()); f.push(n); } f };
     let fenv: Vec<Envelope> = fam.iter().map(|m| bind::build(m, 0)).collect();
     let key = bind::key0();
     let acc2 = (0..fam.len()).into_par_iter().with_max_len(1).map(|i| {
